@@ -6,6 +6,8 @@ import (
 	"time"
 
 	"github.com/libp2p/go-libp2p/core/peer"
+
+	"github.com/celestiaorg/celestia-node/libs/verifhook"
 )
 
 const defaultCleanupThreshold = 2
@@ -183,6 +185,7 @@ func (p *pool) putOnCooldown(peerID peer.ID) {
 	defer p.m.Unlock()
 
 	if status, ok := p.statuses[peerID]; ok && status == active {
+		verifhook.PointKV("peers.lock:pool-held-want-queue", p.cooldown)
 		p.cooldown.push(peerID)
 
 		p.statuses[peerID] = cooldown
@@ -193,6 +196,7 @@ func (p *pool) putOnCooldown(peerID peer.ID) {
 
 func (p *pool) afterCooldown(peerID peer.ID) {
 	p.m.Lock()
+	verifhook.PointKV("peers.lock:pool-acquired-from-queue", p.cooldown)
 	defer p.m.Unlock()
 
 	// item could have been already removed by the time afterCooldown is called
